@@ -473,6 +473,38 @@ def generate(rng: random.Random) -> tuple[str, str | None, list[str]]:
                 ml.append(f"    out2 = {name}({', '.join(args2)})")
             text.append("\n".join(ml) + "\n\n")
             names.append(f"main{i}")
+    # direct calls of the declared generic helpers at concrete types, incl. T := None
+    if rng.random() < 0.5:
+        ml = ["@guppy", "def main_direct() -> None:"]
+        for j in range(rng.randint(1, 4)):
+            ct = rng.choice(CONCRETE["cd"])
+            ml.append(f"    d{j} = {rng.choice(['id_cd', 'id_cd', 'peek_cd', 'eat_cd'])}({mk_value(ct)})")
+        if rng.random() < 0.5:
+            ml.append("    e0 = id_d(array(1, 2))")
+            ml.append("    e1 = peek_d(e0)")
+        text.append("\n".join(ml) + "\n\n")
+        names.append("main_direct")
+        kinds.append("direct-calls")
+    # a function monomorphised at several comptime values in one compile, with a nested function
+    if rng.random() < 0.4:
+        nested = rng.random() < 0.7
+        body = ["@guppy", "def mono(x: int, kc: int @comptime, flag: bool @comptime, y: TCD) -> tuple[int, TCD]:"]
+        if nested:
+            # (the nested function does not mention the parent's comptime parameters: /repo does not
+            # make them visible inside nested functions)
+            body += ["    def helper(h0: int) -> int:", "        if h0 > 2:", "            return h0 - 1",
+                     "        return h0 + 1"] if rng.random() < 0.5 else \
+                    ["    def helper(h0: int) -> int:", "        return h0 * 2 + 1"]
+        body.append(f"    r = {'helper(x)' if nested else 'x'} + kc * {rng.randint(1, 5)}")
+        body += ["    if flag:", "        r += 100", "    return r, y", ""]
+        text.append("\n".join(body) + "\n")
+        vals = [(rng.randint(0, 9), rng.choice(["True", "False"])) for _ in range(rng.randint(2, 4))]
+        ml = ["@guppy", "def main_mono() -> None:"]
+        for j, (kv, fv) in enumerate(vals):
+            ml.append(f"    m{j} = mono({j}, {kv}, {fv}, {mk_value(rng.choice(CONCRETE['cd']))})")
+        text.append("\n".join(ml) + "\n\n")
+        names.append("main_mono")
+        kinds.append("multi-mono" + ("-nested" if nested else ""))
     full = "".join(text)
     fp = hashlib.sha1(" ".join(kinds).encode()).hexdigest()[:16] if any(k.startswith(("if", "while")) for k in kinds) else None
     return full, fp, names
